@@ -1,0 +1,41 @@
+//go:build verif
+
+package charset
+
+// Verification hooks (build tag "verif").
+
+// VerifBOM is one row of the BOM table.
+type VerifBOM struct {
+	BOM []byte
+	Enc string
+}
+
+// VerifBoms returns the BOM table in order.
+func VerifBoms() []VerifBOM {
+	var out []VerifBOM
+	for _, b := range boms {
+		out = append(out, VerifBOM{b.bom, b.enc})
+	}
+	return out
+}
+
+// VerifTextChars returns the byte class table.
+func VerifTextChars() [256]byte { return textChars }
+
+// VerifFromMetaElement exposes fromMetaElement.
+func VerifFromMetaElement(s string) string { return fromMetaElement(s) }
+
+// VerifXMLEncoding exposes xmlEncoding.
+func VerifXMLEncoding(s string) string { return xmlEncoding(s) }
+
+// VerifFromHTML exposes fromHTML (meta prescan only, no BOM, no fallback).
+func VerifFromHTML(content []byte) string { return fromHTML(content) }
+
+// VerifFromXML exposes fromXML (declaration only, no fallback).
+func VerifFromXML(content []byte) string { return fromXML(content) }
+
+// VerifLatin exposes latin.
+func VerifLatin(content []byte) string { return latin(content) }
+
+// VerifASCII exposes ascii.
+func VerifASCII(content []byte) bool { return ascii(content) }
